@@ -118,6 +118,10 @@ func (store *eventsStore) LoadEvents(height uint32) Events {
 		panic(err)
 	}
 
+	// the id tables are filled by CommitEvents on the consensus goroutine
+	store.RLock()
+	defer store.RUnlock()
+
 	resultEvents := make(Events, 0, len(items))
 	for _, compactEvent := range items {
 		if stake, ok := compactEvent.(stake); ok {
@@ -151,6 +155,11 @@ func (store *eventsStore) CommitEvents(height uint32) error {
 
 	store.pending.Lock()
 	defer store.pending.Unlock()
+
+	// savePubKey/saveAddress extend the id tables that LoadEvents reads concurrently
+	store.Lock()
+	defer store.Unlock()
+
 	var data []compact
 	for _, item := range store.pending.items {
 		if stake, ok := item.(Stake); ok {
@@ -187,8 +196,6 @@ func (store *eventsStore) CommitEvents(height uint32) error {
 		return err
 	}
 
-	store.Lock()
-	defer store.Unlock()
 	if err := store.db.Set(uint32ToBytes(height), bytes); err != nil {
 		return err
 	}
